@@ -1,7 +1,8 @@
 SPECIFICATION Spec
 CONSTANTS
-  Alphabet = {"doctype", "dq", "sq", "gt", "lb", "x", "nul"}
-  MaxLen = 5
+  Prefixes = {"doctype"}
+  Alphabet = {"dq", "sq", "gt", "lb", "x", "nul"}
+  MaxLen = 4
   Emit = TRUE
   VoidClosesTag = TRUE
   NameStopNeedsGt = TRUE
